@@ -39,8 +39,8 @@ var c08ReadOnly = []string{
 
 func checkC08(c *Ctx) {
 	r, p := c.R, c.P
-	r.Explanation = "Decides structural necessary conditions of C08. (B1) pooled-buffer escape — in the whole module no value that may share memory with a buffer obtained from a sync.Pool (BufPool, the byte-slice pool) is stored into a field/global/heap object, sent on a channel or handed to a goroutine, and none is returned by a function that also gives the buffer back to the pool (a summary-based alias analysis over go/ssa follows slices, cells, helper calls in both directions — the Get and the Put may each live in a helper, a deferred closure or a deferred named function —, callbacks passed as function-typed parameters and the modelled library calls). A function that obtains a buffer and returns it without ever giving it back hands it over: its callers are judged as holders. Writing into the buffer and passing it to io.Writer.Write / AEAD Seal/Open is allowed by their no-retain contracts. (B2) package-level state inventory — every package-level variable of the module is (a) never stored to and never written through (elements, map entries, appends, in-place library writes, also through same-module helpers that receive it) outside package initialisation, or (b) a sync.Pool used only through Get/Put (also through helpers that receive its address), or (c) a synchronisation object, or (d) mutated after initialisation but then every access (load, look-up, iteration, update, hand-over to a call) happens while one package-level sync.Mutex/RWMutex of the same package is held (write mode for writes); the guard is inferred, not named: some lock of the package must cover all accesses. A package-level struct that is the only object of its module type is treated field by field the same way (its own mutex fields are candidate guards). The guarded registries found this way are additionally required to be read and updated in one critical section per operation. (B3) byteslicepool.Get hands out only fresh memory or recycled memory that was zeroed over its whole length on every path (must-dataflow; clear(), up/down counted loops in any lowering, zeroing helpers; the recycled value may come from a helper), and Put stores the caller's slice without cutting its length. (B1-release-once) in every function the same pooled object (identified through conversions, single-assignment locals, captured variables, hand-over helpers) is given back at most once on every path: direct Put, deferred Put, Put helpers, deferred function literals and returned release functions all count; VIOLATION when an unconditional release is certain to be followed by another one (a deferred release registered before it, or a dominating earlier release), UNDECIDED when two releases merely may lie on one path. (B2, references) the map/slice/pointer loaded from a guarded variable is followed through results, arguments and local variables of same-package functions: every use of the reference anywhere is an access that needs the guard; returning it from an exported function is a violation. (B4) the exported entry points of crypto, crypto/aeskw, crypto/padding, crypto/aescbcaead never write memory reachable from their []byte inputs (elements or spare capacity; the taint engine's write summaries; dst of cipher.AEAD Seal/Open exempt by contract): two calls on separate messages/keys that live in one backing array, or share a key slice, would otherwise change each other's results. NOT decided: data-race freedom in general, 'same results when run concurrently' (needs execution), use of a pooled buffer after an early (non-deferred) Put inside the same function; per-object state is covered by C13/C14."
-	r.Assumptions = append(r.Assumptions, "library model table of kitcheck/taint.go; interface calls into the module are covered by the io.Writer / cipher.AEAD contract models", "method calls on package-level objects of library types (loggers, parsers with value receivers) do not mutate shared state", "a package-level variable assigned only inside a sync.Once.Do callback is not decided (UNDECIDED)")
+	r.Explanation = "Decides structural necessary conditions of C08. (B1) pooled-buffer escape — in the whole module no value that may share memory with a buffer obtained from a sync.Pool (BufPool, the byte-slice pool) is stored into a field/global/heap object, sent on a channel or handed to a goroutine, and none is returned by a function that also gives the buffer back to the pool (a summary-based alias analysis over go/ssa follows slices, cells, helper calls in both directions — the Get and the Put may each live in a helper, a deferred closure or a deferred named function —, callbacks passed as function-typed parameters (also forwarded, kept in locals or captured variables), release functions returned by a borrow helper and called or deferred by its caller, methods of a module interface with a single implementation, and the modelled library calls). A function literal that stores memory derived from its own parameter into a captured variable is an escape for whoever calls it; fields of a non-escaping local struct variable are value flow, not escapes. A call that receives pooled memory and is neither modelled nor followed gives UNDECIDED. A function that obtains a buffer and returns it without ever giving it back hands it over: its callers are judged as holders. Writing into the buffer and passing it to io.Writer.Write / AEAD Seal/Open is allowed by their no-retain contracts. (B2) package-level state inventory — every package-level variable of the module is (a) never stored to and never written through (elements, map entries, appends, in-place library writes, also through same-module helpers that receive it) outside package initialisation, or (b) a sync.Pool used only through Get/Put (also through helpers that receive its address), or (c) a synchronisation object, or (d) mutated after initialisation but then every access (load, look-up, iteration, update, hand-over to a call) happens while one package-level sync.Mutex/RWMutex of the same package is held (write mode for writes); the guard is inferred, not named: some lock of the package must cover all accesses. The lock held at an access is the must-hold lockset of the lockset engine plus the locks held around the invocation of a callback: a function value whose every use is to be passed to a same-module wrapper runs under the locks the wrapper holds when it calls it (also when the wrapper forwards it to another runner), including a lock the wrapper received as a parameter (*sync.Mutex, *sync.RWMutex, sync.Locker; resolved per call site, RLocker() = read mode); a callback started with go holds nothing. A variable assigned inside a sync.Once.Do callback is accepted when every other access is provably after Do on that Once (else UNDECIDED); further writers still need the lock. A package-level struct that is the only object of its module type is treated field by field the same way (its own mutex fields are candidate guards). The guarded registries found this way are additionally required to be read and updated in one critical section per operation. (B3) byteslicepool.Get hands out only fresh memory or recycled memory that was zeroed over its whole length on every path (must-dataflow; clear(), up/down counted loops in any lowering, zeroing helpers; the recycled value may come from a helper), and Put stores the caller's slice without cutting its length. (B1-release-once) in every function the same pooled object (identified through conversions, single-assignment locals, captured variables, hand-over helpers) is given back at most once on every path: direct Put, deferred Put, Put helpers, deferred function literals and returned release functions all count; VIOLATION when an unconditional release is certain to be followed by another one (a deferred release registered before it, or a dominating earlier release), UNDECIDED when two releases merely may lie on one path. (B2, references) the map/slice/pointer loaded from a guarded variable is followed through results, arguments (also into the targets of function values it is passed to), local and captured variables of same-package functions: every use of the reference anywhere is an access that needs the guard; returning it from an exported function is a violation. (B4) the exported entry points of crypto, crypto/aeskw, crypto/padding, crypto/aescbcaead never write memory reachable from their []byte inputs (elements or spare capacity; the taint engine's write summaries; dst of cipher.AEAD Seal/Open exempt by contract): two calls on separate messages/keys that live in one backing array, or share a key slice, would otherwise change each other's results. NOT decided: data-race freedom in general, 'same results when run concurrently' (needs execution), use of a pooled buffer after an early (non-deferred) Put inside the same function; per-object state is covered by C13/C14."
+	r.Assumptions = append(r.Assumptions, "library model table of kitcheck/taint.go; interface calls into the module are covered by the io.Writer / cipher.AEAD contract models", "method calls on package-level objects of library types (loggers, parsers with value receivers) do not mutate shared state", "a package-level variable assigned inside a sync.Once.Do callback is accepted only if every other access is dominated by Do on the same Once (directly, through a same-module function that calls Do on every path, or at every call site of the accessing function); otherwise UNDECIDED", "identities are type-based: a lock is its package-level variable or (type, field); a pool is its variable or (type, field), looked through single-assignment locals", "a module interface with exactly one implementing module type dispatches to that type")
 	r.Rule("C08.B1-pool-escape", "no value derived from a sync.Pool buffer escapes, or is returned by, a function that gives the buffer back", 2)
 	r.Rule("C08.B2-inventory", "package-level variables: read-only after init, Pool via Get/Put, sync object, or every access under one package-level lock", 30)
 	r.Rule("C08.B3-zeroed", "byteslicepool.Get returns zeroed or fresh memory", 1)
